@@ -49,7 +49,8 @@ Definition xterm_entry_ok (k : kname) (mods : N) (a : bool) : bool :=
 (* every key, both forms, every one of the 256 modifier masks: run on the regenerated automaton *)
 Lemma xterm_table_ok :
   forallb (fun k => forallb (fun a => sweep1 256 (fun mods => xterm_entry_ok k mods a)) [true; false]) xterm_keys = true.
-Proof. vm_compute. reflexivity. Qed.
+(* one evaluation only: the kernel checks the cast with the VM at Qed *)
+Proof. vm_cast_no_check (@eq_refl bool true). Qed.
 
 Lemma xterm_key_in k mods a w : xterm_seq k mods a = Some w -> In k xterm_keys /\ mods < 256.
 Proof.
@@ -122,7 +123,8 @@ Definition modkey_ok (f code p : N) : bool :=
   opt_key_eqb (ev_payload decmode_codes decstatus_codes 14 w) (modkey_expect code (p + 1) f).
 Lemma modkey_convention_ok :
   forallb (fun f => sweep2 32 256 (modkey_ok f)) (126 :: modkey_finals) = true.
-Proof. vm_compute. reflexivity. Qed.
+(* one evaluation only: the kernel checks the cast with the VM at Qed *)
+Proof. vm_cast_no_check (@eq_refl bool true). Qed.
 
 Lemma opt_key_eqb_eq a b : opt_key_eqb a b = true -> a = b.
 Proof.
